@@ -21,8 +21,8 @@ STATUSES = [100, 101, 200, 204, 301, 302, 303, 307, 308, 400, 404, 500]
 UPGRADES = ["websocket", "WebSocket", "  websocket ", "foo, websocket", "foo", None, "websockets", "x-websocket"]
 CONNECTIONS = ["Upgrade", "upgrade", "keep-alive, Upgrade", "close", None, "Upgraded, keep-alive"]
 ACCEPTS = ["right", "absent", "otherkey", "prevkey", "altered", "truncated", "junk-appended", "extra-pad", "inserted-char", "space-inside", "lowbits"]
-OFFERED = [None, ["a", "b"]]
-SELECTED = [None, "a", "A", "c"]
+OFFERED = [None, ["a", "b"], ["chat.v2", "superchat"]]
+SELECTED = [None, "a", "A", "c", "chat", "v2", ",", "chat.v2,superchat", "superchat", "SuperChat", "a,b", ""]
 REDIRECTS = (301, 302, 303, 307, 308)
 
 
@@ -336,7 +336,14 @@ def run_task(desc):
 
     if desc["part"] == "recipes":
         status = STATUSES[desc["status"]]
-        for up, co, ac, of, se in itertools.product(UPGRADES, CONNECTIONS, ACCEPTS, OFFERED, SELECTED):
+        if status == 101:
+            # subprotocol selection in an otherwise valid upgrade: every offered list x every selected value (look-alikes of offered names:
+            # substrings, several names, the separator, the empty value)
+            for of, se in itertools.product(OFFERED, SELECTED):
+                for up, co in (("websocket", "Upgrade"), (UPGRADES[0], CONNECTIONS[0])):
+                    n += 1
+                    rec(guarded(recipe_case, status, up, co, "right", of, se), {"case": "recipe", "args": [status, up, co, "right", of, se]})
+        for up, co, ac, of, se in itertools.product(UPGRADES, CONNECTIONS, ACCEPTS, OFFERED[:2], SELECTED[:4]):
             n += 1
             rec(guarded(recipe_case, status, up, co, ac, of, se), {"case": "recipe", "args": [status, up, co, ac, of, se]})
             if of is OFFERED[0] and se is SELECTED[0]:
